@@ -475,6 +475,14 @@ def _equivalent_conditions(c):
     elif c[0] == "variant_in" and len(c[2]) == 1 and c[2][0] in _VARIANT_PRED:
         pred, pol = _VARIANT_PRED[c[2][0]]
         out.append(("bool", (pred, (deep_peel(c[1]),), pol), "~"))
+        # `r.ok()` is Some exactly when r is Ok (`r.err()`: when it is Err; `o.ok_or(..)` / `ok_or_else(..)`: Ok exactly when o is Some)
+        x = peel(c[1])
+        if x[0] == "call" and x[2]:
+            conv = {("std::result::Result::ok", "Some"): "Ok", ("std::result::Result::ok", "None"): "Err", ("std::result::Result::err", "Some"): "Err",
+                    ("std::result::Result::err", "None"): "Ok", ("std::option::Option::ok_or", "Ok"): "Some", ("std::option::Option::ok_or", "Err"): "None",
+                    ("std::option::Option::ok_or_else", "Ok"): "Some", ("std::option::Option::ok_or_else", "Err"): "None"}.get((x[1], c[2][0]))
+            if conv:
+                out.append(("variant_in", x[2][0], (conv,), "~"))
     return out
 
 
